@@ -15,6 +15,7 @@ import StepModel.ComplexBuildOK
 import StepModel.ComplexMarks10
 import StepModel.ComplexComplete9
 import StepModel.ComplexBuildDistinct
+import StepModel.ComplexReset
 /-!
 # C08 — complex instances are accepted exactly when the supertype constraints allow them
 
@@ -549,6 +550,27 @@ example (parts : List Name) (h2 : ∃ a ∈ parts, ∃ b ∈ parts, a ≠ b) (b 
         simp only [Expr.oneofSmall, Expr.oneofSmallL, and_true, List.length_cons, List.length_nil]
         decide)
     50 exOneofAndorTree C08_collectOf_example parts h2 b hs
+
+-- ------------------------------------------------------------------ between two requests
+/-- regenerated from multlist.cc / complexlist.cc / complexSupport.h: `ComplexList::matches` ends with `head->reset();
+ents->unmarkAll();`, and the `reset()` family resets every list unconditionally (false on the seeded C08-e2, where
+`MultList::reset` returns early on `viable == UNKNOWN`) -/
+theorem C08_reset_guarded : resetIsFull = true := by decide
+
+/-- **`matches` leaves the collect in its initial mark state.**  Whatever state `t` a matching attempt left the shared
+hierarchy in (any `viable` values, any `I_marked`, any `choice`s) and whatever marks the request list carries:
+`reset()` (model `resetST`) yields the state every call of the matcher model starts from (`fresh` of the same tree) —
+all `viable = UNKNOWN`, no SimpleList holding a mark, every OrList with `choice = −1`, `choiceCount = 0` — up to
+`OrList::choice1` (−2 after `reset()`, −1 after construction: it is written at the first alternative that counts before
+it is read, the invariant `OInv` behind `C08_accept_contains_derivation` assumes nothing about its start value), and
+`EntNode::unmarkAll` (`unmarkEnts`) leaves no mark and the names unchanged.  So the verdict on a request does not depend
+on the requests before it; on the real code this is the ordered-pairs stream of the check (every ordered pair of
+requests through one collect, verdict of the second = verdict on a fresh collect) and the regenerated `C08_reset_guarded`. -/
+theorem C08_matches_restores_marks (t : ST) (es : Ents) :
+    StartLike (resetST t) (fresh (trV (skel t))) ∧ holds (resetST t) = [] ∧
+    names (unmarkEnts es) = names es ∧ (∀ n, markAt (unmarkEnts es) n = .no) ∧
+    (unmarkEnts es).map (·.mult) = es.map (·.mult) :=
+  ⟨reset_startLike t, reset_holds t, unmarkEnts_names es, unmarkEnts_markAt es, unmarkEnts_mult es⟩
 
 -- ------------------------------------------------------------------ EntNode::sort (renamed parts)
 /-- with strict comparisons in `lastSmaller` (the source before fixes/C08-2) two equal names make `EntNode::sort`
